@@ -13,6 +13,10 @@ def run(ctx: Ctx):
 
     for _ in pipeline.run_pipeline(ctx, want):
         pass
+    # engine T: executions on large random centimetre-lattice scenes (both storage frames) validated step by step against Manager.tla
+    from . import pipeline_trace
+
+    ctx.extra["manager_executions_validated_as_traces"] = pipeline_trace.run(ctx, n=150 if ctx.quick else 3000)
     ctx.rule = (
         "TLC runs the add_frame_result step machine (manager filter -> two-stage matching -> uuid filter -> critical filter -> pass/fail -> AP) on "
         "every configuration x lattice scene of the families (x/y boxes, distance rings, confidence/point/uuid/attribute thresholds, unknown as "
